@@ -214,25 +214,22 @@ class CallMixin:
 
     def obj_attr(self, st, base, attr, node):
         cls = base.cls
-        # declared (possibly abstracted) heap field wins
-        ty = self.reg.field_type(cls, attr) if cls else None
-        if ty is None and cls is not None:
+        d0 = (self.reg.classes.get(cls) or self.reg.class_by_key.get(cls)) if cls else None
+        # 1. fields declared (possibly as an abstraction) for exactly this class
+        if d0 is not None and attr in d0.fields:
+            return [(st, self.read_field(st, base, attr, d0.fields[attr]))]
+        if d0 is not None and d0.opaque:
+            # objects of the environment (transports, loops, ...): method calls go to assumed contracts
+            return [(st, VFunc('ext', name='%s.%s' % (d0.short, attr), bound=base))]
+        # 2. the class hierarchy, in MRO order: declared fields, properties, methods, class constants
+        if cls is not None:
             for ci in self.mro_infos(cls):
                 d = self.reg.class_by_key.get('%s:%s' % (ci.module.name, ci.qualname))
                 if d is not None and attr in d.fields:
-                    ty = d.fields[attr]
-                    break
-        if ty is not None:
-            return [(st, self.read_field(st, base, attr, ty))]
-        d0 = self.reg.classes.get(cls) or self.reg.class_by_key.get(cls) if cls else None
-        if d0 is not None and d0.opaque:
-            # objects of the environment (transports, loops, pipes of other layers): method calls go to assumed contracts
-            return [(st, VFunc('ext', name='%s.%s' % (d0.short, attr), bound=base))]
-        if cls is not None:
-            cp = self.class_property(cls, attr)
-            if cp is not None:
-                return self.call_accessor(st, cp[0], cp[1], [base], node)
-            for ci in self.mro_infos(cls):
+                    return [(st, self.read_field(st, base, attr, d.fields[attr]))]
+                e = ci.class_attrs.get(attr)
+                if e is not None and isinstance(e, ast.Call) and isinstance(e.func, ast.Name) and e.func.id == 'property' and e.args:
+                    return self.call_accessor(st, ci, e.args[0], [base], node)
                 if attr in ci.methods:
                     f = ci.methods[attr]
                     if f.kind == 'property':
@@ -242,14 +239,19 @@ class CallMixin:
                     if f.kind == 'class':
                         return [(st, VFunc('repo', info=f, bound=VFunc('class', pyobj=self.pyclass(cls), key=self.class_key(cls))))]
                     return [(st, VFunc('repo', info=f, bound=base))]
-                if attr in ci.class_attrs:
-                    return [(st, self.eval_const_expr(st, ci, ci.class_attrs[attr], node))]
+                if e is not None:
+                    return [(st, self.eval_const_expr(st, ci, e, node))]
                 q = ci.qualname + '.' + attr
                 if q in ci.module.classes:
                     return [(st, VFunc('class', pyobj=None, key='%s:%s' % (ci.module.name, q)))]
             pc = self.pyclass(cls)
             if pc is not None and hasattr(pc, attr) and (not callable(getattr(pc, attr)) or isinstance(getattr(pc, attr), type)):
                 return [(st, self.lift(st, getattr(pc, attr), node))]
+        ty = self.reg.field_type(cls, attr) if cls else None
+        if ty is None:
+            ty = self.infer_field_type(cls, attr)
+        if ty is not None:
+            return [(st, self.read_field(st, base, attr, ty))]
         self.unsupported(node, 'no declared type for field %s.%s' % (cls, attr))
 
     # ------------------------------------------------------------------ calls
